@@ -525,6 +525,7 @@ func (m *Memberlist) UpdateNode(timeout time.Duration) error {
 	// Get the existing node
 	m.nodeLock.RLock()
 	state := m.nodeMap[m.config.Name]
+	addr, port := state.Addr, state.Port
 	m.nodeLock.RUnlock()
 
 	// Format a new alive message
@@ -532,8 +533,8 @@ func (m *Memberlist) UpdateNode(timeout time.Duration) error {
 	a := alive{
 		Incarnation: m.nextIncarnation(),
 		Node:        m.config.Name,
-		Addr:        state.Addr,
-		Port:        state.Port,
+		Addr:        addr,
+		Port:        port,
 		Meta:        meta,
 		Vsn:         m.config.BuildVsnArray(),
 	}
